@@ -13,6 +13,7 @@ type Program struct {
 	Mock       int    `json:"mock"`
 	Goroutines [][]Op `json:"goroutines"`
 	WithResets bool   `json:"with_resets"`
+	BlockFirst bool   `json:"block_first,omitempty"` // C06: goroutine 0's first call parks inside its function until all others are done
 }
 
 type gCall struct {
@@ -95,6 +96,16 @@ func RunProgram(def *MockDef, prog *Program) (vs []V, flags map[string]bool, err
 				case "read":
 					out := m.calls.Call(nil)
 					lg.snaps[pr.mi] = append(lg.snaps[pr.mi], out[0])
+					// read every record of the snapshot (and of the previous one): a returned slice is never
+					// written again, so this must not race with later appends or resets
+					for _, sl := range lg.snaps[pr.mi][maxInt(0, len(lg.snaps[pr.mi])-2):] {
+						if sl.Len() > 0 {
+							tmp := reflect.New(sl.Type().Elem()).Elem()
+							for i := 0; i < sl.Len(); i++ {
+								tmp.Set(sl.Index(i))
+							}
+						}
+					}
 				case "reset":
 					if m.reset.IsValid() {
 						m.reset.Call(nil)
